@@ -689,16 +689,16 @@ func runC15(c *Ctx) {
 		c.Saw(fn)
 		c.fixedWidthAccess("C15.S7", fn, buf)
 		c.loopIndexAccess("C15.S7", fn, buf)
-		// copies into the destination
+	}
+	// copies inside the codec: the destination is sliced to exactly len(src), so a short buffer fails (bounds
+	// check / explicit guard) instead of truncating the value silently
+	for _, fn := range c.P.FuncsOf("xbinary") {
 		ir.Instrs(fn, func(in ssa.Instruction) {
 			cc := builtinCall(in, "copy")
 			if cc == nil {
 				return
 			}
 			dst, src := ir.Resolve(cc.Args[0]), cc.Args[1]
-			if !same(sliceRoot(dst), buf) {
-				return
-			}
 			s, ok := dst.(*ssa.Slice)
 			exact := false
 			if ok && s.High != nil {
@@ -714,8 +714,9 @@ func runC15(c *Ctx) {
 					}
 				}
 			}
+			c.Saw(fn)
 			c.Decide("C15.S7", fn, "copy destination has exactly len(src) elements", in, exact,
-				"the destination of copy() is not sliced to exactly len(src): with a short buffer the body is truncated silently instead of failing")
+				"the destination of copy() is not sliced to exactly len(src): with a short (or just too small) buffer the body is truncated silently instead of failing, and the bytes written no longer match the predicted size")
 		})
 	}
 	c.R.Floor("C15.S7", 6)
